@@ -4,7 +4,7 @@
 (* Pgn!RenderDb.  The driver only chooses shapes: start FEN, length, tags, comments, result token, tail.        *)
 EXTENDS Pgn, Json, IOUtils
 
-Specs == ndJsonDeserialize(IOEnv.SPECS)     \* one collection per line: [games |-> <<[fen, plies, tags, clk, marks, result]>>, tail]
+Specs == ndJsonDeserialize(IOEnv.SPECS)     \* one collection per line: [games |-> <<[fen, plies, tags, clk, marks, castle, result]>>, tail]
 
 RECURSIVE Play(_, _, _)
 PlayStep(p, L, m, k, spec) ==
@@ -13,7 +13,10 @@ PlayStep(p, L, m, k, spec) ==
       uci |-> Uci(m)] >> \o Play(Apply(p, m), k - 1, spec)
 Play(p, k, spec) ==
   IF k = 0 THEN <<>>
-  ELSE LET L == Legal(p) IN IF L = {} THEN <<>> ELSE PlayStep(p, L, RandomElement(L), k, spec)
+  ELSE LET L == Legal(p)
+           C == {m \in L : m.kind = "castle"}     \* games that ask for it castle as soon as they may
+       IN IF L = {} THEN <<>>
+          ELSE PlayStep(p, L, IF spec.castle /\ C # {} THEN RandomElement(C) ELSE RandomElement(L), k, spec)
 
 RECURSIVE FinalPos(_, _, _)
 FinalPos(p, ms, i) == IF i > Len(ms) THEN p
